@@ -616,6 +616,8 @@ def no_positional_turn(repo, rep):
 
 
 def run(repo, rep, tier):
+    from .round7b import hygiene
+    hygiene(repo, rep, "C12", ('wavespectra.input.ww3', 'wavespectra.input.ncswan', 'wavespectra.input.wwm', 'wavespectra.input.era5', 'wavespectra.input.ndbc', 'wavespectra.input.dataset', 'wavespectra.core.utils'), falsy=True)
     rep.rule("R-C12-11", "direction / frequency grids built with arange / linspace keep NumPy's own (float) dtype or a literal float dtype: a dtype borrowed "
                          "from a data variable truncates a fractional step, placing the spectra on wrong directions")
     from .round7 import grid_dtype_from_data
